@@ -746,7 +746,11 @@ func checkNoTrustProxyLiteral(c *Ctx, rule, rel, typeName string) {
 }
 
 // checkNilReturnOnlyUnder: every `return nil` of fn is unreachable once the allowed edges are cut.
-func checkNilReturnOnlyUnder(c *Ctx, rule string, fn *ssa.Function, allowed func(b *ssa.BasicBlock, si int) bool) {
+func checkNilReturnOnlyUnder(c *Ctx, rule string, fn *ssa.Function, allowed func(b *ssa.BasicBlock, si int) bool, detail ...string) {
+	msg := "returns no middleware on a path other than the documented 'nothing declared' conditions: the directive is silently inert"
+	if len(detail) > 0 {
+		msg = detail[0]
+	}
 	n := 0
 	for _, b := range fn.Blocks {
 		for _, ins := range b.Instrs {
@@ -760,7 +764,7 @@ func checkNilReturnOnlyUnder(c *Ctx, rule string, fn *ssa.Function, allowed func
 			n++
 			q := &pathQuery{fn: fn, cutEdge: allowed, target: func(x ssa.Instruction) bool { return x == ins }}
 			hit, path := q.fromEntry()
-			c.ob(rule, fnKey(fn)+"#return-nil-"+itoa(n), ret.Pos(), hit == nil, "returns no middleware on a path other than the documented 'nothing declared' conditions: the directive is silently inert", c.blockPath(path)...)
+			c.ob(rule, fnKey(fn)+"#return-nil-"+itoa(n), ret.Pos(), hit == nil, msg, c.blockPath(path)...)
 		}
 	}
 }
